@@ -17,6 +17,8 @@ mod corpus;
 mod feed;
 mod c14;
 mod c15;
+mod c20;
+mod sched;
 mod dec;
 
 pub fn verif_dir() -> String {
@@ -77,6 +79,7 @@ fn main() {
         "C12" => c12::main(&args),
         "C14" => c14::main(&args),
         "C15" => c15::main(&args),
+        "C20" => c20::main(&args),
         "bringup" => bringup::main(&args),
         _ => {
             eprintln!("unknown check {id}");
